@@ -179,7 +179,7 @@ fn main() {
         ];
         for (k, (gadgets, cfg_lkm, partials)) in directed.iter().enumerate() {
             let rc = Recipe { g: "gadget".into(), state: 7001 + 2 * k as u64, kind: Kind::Lkm, gadgets: gadgets.iter().map(|s| s.to_string()).collect(),
-                split: k % 2 == 1, extra: 0, cfg_lkm: *cfg_lkm, shared: false };
+                split: k % 2 == 1, extra: 0, cfg_lkm: *cfg_lkm, shared: false, markers: 3 };
             let id = recipes.len();
             jobs.push(Job { input_id: id, partial: None, tag: "lkm-default" });
             for p in partials {
@@ -187,11 +187,23 @@ fn main() {
             }
             recipes.push(rc);
         }
+        // directed, always-run: relocatable objects with exactly one / none / both kernel-module marker sections
+        for (k, markers) in [1u8, 2, 0, 3].iter().enumerate() {
+            let rc = Recipe { g: "gadget".into(), state: 7101 + 2 * k as u64, kind: Kind::Lkm,
+                gadgets: ["CWE782", "CWE676", "CWE243", "CWE560", "CWE476", "CWE367"].iter().map(|s| s.to_string()).collect(),
+                split: k % 2 == 0, extra: 0, cfg_lkm: false, shared: false, markers: *markers };
+            let id = recipes.len();
+            jobs.push(Job { input_id: id, partial: None, tag: "rel-default-directed" });
+            for p in ["CWE782,CWE676", "CWE243", &all_names.join(",")] {
+                jobs.push(Job { input_id: id, partial: Some(p.to_string()), tag: "rel-partial-directed" });
+            }
+            recipes.push(rc);
+        }
         let n_directed = recipes.len();
         for i in n_directed..n_directed + n_inputs {
             let rc = Recipe::random_gadget(&mut rng);
             let avail = if rc.cfg_lkm { &avail_lkm } else { &all_names };
-            jobs.push(Job { input_id: i, partial: None, tag: if rc.kind == Kind::Lkm { "lkm-default" } else { "default" } });
+            jobs.push(Job { input_id: i, partial: None, tag: if rc.kind == Kind::Lkm && rc.markers == 3 { "lkm-default" } else { "default" } });
             for _ in 0..n_sel {
                 let (p, tag) = random_partial(&mut rng, avail);
                 jobs.push(Job { input_id: i, partial: Some(p), tag });
@@ -223,6 +235,7 @@ fn main() {
         let mut line = json!({
             "t": "run",
             "lkm": inp.is_lkm,
+            "elf": inp.elf_facts,
             "partial": j.partial,
             "avail": avail,
             "fired_ok": all_run.exit == Some(0) && fired.is_some(),
